@@ -102,6 +102,7 @@ DOMNodeImpl::DOMNodeImpl(DOMNode* containingNode, const DOMNodeImpl &other)
     // Need to break the association w/ original parent
     this->fOwnerNode = other.getOwnerDocument();
     this->isOwned(false);
+    this->isFirstChild(false);
 }
 
 
